@@ -142,7 +142,7 @@ func genCPS4(t *rapid.T, needBound bool) cpCase {
 			c.Weights[1] = uint32(c.Max) + 1
 		}
 	}
-	c.Keys = pick(t, "keys4", 2, 8, 40, 400)
+	c.Keys = pick(t, "keys4", 2, 8, 40, 400, 5000) // 5000: the table grows through several sizes during the run
 	c.Exec = pick(t, "exec", 0, 1, 2)
 	c.Stats = rapid.Bool().Draw(t, "stats")
 	c.Goroutines = rapid.IntRange(2, 10).Draw(t, "g")
@@ -150,7 +150,7 @@ func genCPS4(t *rapid.T, needBound bool) cpCase {
 	c.Phases = rapid.IntRange(1, 3).Draw(t, "phases")
 	c.Seed = rapid.Int64().Draw(t, "seed")
 	c.Noise = pick(t, "noise", 0, 1, 2)
-	c.Procs = pick(t, "procs", 16, 16, 4, 3)
+	c.Procs = pick(t, "procs", 16, 16, 4, 3, 6, 12) // the parallel table copy splits by GOMAXPROCS (powers of two and others)
 	c.Reentrant = rapid.IntRange(0, 2).Draw(t, "reentrant4") == 0
 	if c.Reentrant && c.Exec == 0 {
 		// A handler that writes to the cache must not run on the maintenance goroutine itself: with a caller-runs
